@@ -129,7 +129,9 @@ void build_languages()
     std::string R = repo_root();
     build_lang("en", R + "/model/en-us",
                { "go", "forward", "ten", "meters", "i", "want", "a", "small", "pizza", "with", "and", "the", "hello", "yes", "no", "uh", "oh", "eye", "owe", "hi", "medium", "large",
-                 "pepperoni", "ham", "olives", "mushrooms", "one", "two", "three" },
+                 "pepperoni", "ham", "olives", "mushrooms", "one", "two", "three",
+                 // homophones of words in the recordings (equal scores by construction: ties)
+                 "metres", "to", "too", "for", "fore", "four", "won", "eye", "aye", "tenn", "goe" },
                R + "/tests/data/turtle.dic", 1100);
     build_lang("fr", R + "/model/fr-fr", { "avance", "de", "dix", "mètres", "recule", "d'", "un", "mètre", "deux", "trois", "quatre", "cinq", "six", "sept", "huit", "neuf", "à", "et", "a", "ou" }, "",
                1300);
